@@ -23,6 +23,7 @@ EXPLANATION = (
     "range is expanded inclusively in whichever order it was written, numbers < 1 and - for non-UID sets - numbers > "
     "seq_max and '*' in an empty mailbox raise Bad, the result is sorted and de-duplicated. (R15.2) unit kinds are decided "
     "under C10. Decides these clauses, not exhaustive differential agreement over all small sets."
+    " The clip helper in front of the interpreter (bounded expansion) must use the maximum the interpreter gets and keep the denotation ('*' = maximum, either order, only ranges entirely above the maximum dropped)."
 )
 RULE_TEXT = "instances: each function that destructures a message set; each call site of the interpreter; each guard/expansion statement of the interpreter"
 ASSUMPTIONS = ["a parsed message set is a list of int | '*' | (start, end) tuples (parser contract, _p_msg_set)", "not decided: differential agreement on all small sets"]
